@@ -556,6 +556,81 @@ pub fn quick_budgets() -> Vec<usize> {
     vec![1, 2, 3, 4, 10]
 }
 
+// ---- an `asm` block with two labels of its own -----------------------------------------------------------------
+// `lda mid / mid: / ldb mid / end:` inside a block, both instructions choosing among three operand widths by the value of
+// `mid`: every self-consistent layout is written down in closed form (mid is 2, 3 or 4); a success must be one of them.
+
+const TL_WIDTHS: [usize; 3] = [8, 16, 24];
+
+fn two_label_text(la: &[usize; 3], lb: &[usize; 3], tail: bool) -> String {
+    let mut t = String::from("#ruledef\n{\n");
+    for (k, c) in ["x <= 1", "x == 2", "x >= 3"].iter().enumerate() {
+        t += &format!("    lda {{x}} => {{ assert({}), 0xa{} @ x`{} }}\n", c, k + 1, la[k]);
+    }
+    for (k, c) in ["x <= 2", "x == 3", "x >= 4"].iter().enumerate() {
+        t += &format!("    ldb {{x}} => {{ assert({}), 0xb{} @ x`{} }}\n", c, k + 1, lb[k]);
+    }
+    t += "    pair => asm\n    {\n        lda mid\n        mid:\n        ldb mid\n        end:\n";
+    if tail {
+        t += "        lda end\n";
+    }
+    t += "    }\n}\npair\n";
+    t
+}
+
+fn two_label_solutions(la: &[usize; 3], lb: &[usize; 3], tail: bool) -> Vec<String> {
+    let hex = |v: usize, w: usize| format!("{:0width$x}", v, width = w / 4);
+    let mut out = vec![];
+    for mid in 2..=4usize {
+        let ca = if mid <= 1 { 0 } else if mid == 2 { 1 } else { 2 };
+        if 1 + la[ca] / 8 != mid {
+            continue;
+        }
+        let cb = if mid <= 2 { 0 } else if mid == 3 { 1 } else { 2 };
+        let end = mid + 1 + lb[cb] / 8;
+        let mut h = format!("a{}{}b{}{}", ca + 1, hex(mid, la[ca]), cb + 1, hex(mid, lb[cb]));
+        if tail {
+            h += &format!("a3{}", hex(end, la[2]));
+        }
+        out.push(h);
+    }
+    out
+}
+
+fn judge_two_labels(la: &[usize; 3], lb: &[usize; 3], tail: bool, l: &mut Local) {
+    let src = two_label_text(la, lb, tail);
+    let sols = two_label_solutions(la, lb, tail);
+    for iters in [3usize, 10, 30] {
+        for opt in [true, false] {
+            let opts = Opts { iters, opt_static: opt, opt_matcher: opt, defines: vec![] };
+            l.eval();
+            let obs = run::assemble_str(&src, &opts);
+            l.traces_validated += 1;
+            let bad = if obs.panicked.is_some() {
+                Some(("C02:panic", "panic".to_string()))
+            } else if obs.success() {
+                l.class("two-labels-in-a-block-ok");
+                (!sols.contains(&obs.hex())).then(|| ("C02:stale-or-inconsistent-success", format!("the emitted {} is none of the self-consistent layouts {:?}", obs.hex(), sols)))
+            } else if !obs.failure() {
+                Some(("C02:unclean-outcome", "neither clean success nor clean failure".to_string()))
+            } else {
+                l.class("two-labels-in-a-block-rejected");
+                None
+            };
+            if let Some((key, why)) = bad {
+                l.violation(Violation {
+                    property: ID,
+                    key: key.into(),
+                    what: format!("{} [iters={} optimisations={}]: {}", why, iters, opt, src.replace('\n', " / ")),
+                    case: json!({"family": "two-labels-in-a-block", "lda_widths": la, "ldb_widths": lb, "tail": tail, "program": src, "self_consistent_layouts": sols, "opts": opts.to_json(), "observed": obs.summary()}),
+                });
+                return;
+            }
+        }
+    }
+    l.nontrivial(&src);
+}
+
 pub fn run(ctx: &Ctx) -> Report {
     let mut rep = Report::new(
         "model_checking",
@@ -605,6 +680,16 @@ pub fn run(ctx: &Ctx) -> Report {
     let sp_budgets = [2usize, 3, 4, 10, 30];
     rep.absorb(par_cases(&sp, |p, l| judge(p, "constant-or-label-as-scope-parent-directed", &sp_budgets, l)));
     levels.push(json!({"family": "a constant / label as scope parent of a late-settling local, with a same-named decoy (directed)", "programs": sp.len()}));
+    {
+        let n = 27u64 * 27 * 2;
+        rep.absorb(par_run(n, |i, l| {
+            let d = decode(i, &[3, 3, 3, 3, 3, 3, 2]);
+            let la = [TL_WIDTHS[d[0] as usize], TL_WIDTHS[d[1] as usize], TL_WIDTHS[d[2] as usize]];
+            let lb = [TL_WIDTHS[d[3] as usize], TL_WIDTHS[d[4] as usize], TL_WIDTHS[d[5] as usize]];
+            judge_two_labels(&la, &lb, d[6] == 1, l);
+        }));
+        levels.push(json!({"family": "an asm block with two labels of its own: 27 x 27 width tables x with/without a third instruction x budgets {3,10,30} x optimisations on/off; closed-form set of self-consistent layouts", "programs": n}));
+    }
     rep.extra("levels", json!(levels));
     rep.extra("budgets", json!(budgets));
     rep.assumptions = vec!["the certificate uses the reference matcher/evaluator (refasm) with the sizes and symbol values the assembler itself reports; it never predicts which fixed point is found".into(), "hook H2 (per-pass state digests) is coverage instrumentation only: the certificate reads the public final result".into()];
@@ -616,6 +701,15 @@ pub fn run(ctx: &Ctx) -> Report {
 
 pub fn replay(ctx: &Ctx, case: &serde_json::Value) -> i32 {
     super::replay_with(ctx, case, |case, l| {
+        if case["family"] == "two-labels-in-a-block" {
+            let w = |k: &str| -> [usize; 3] {
+                let a: Vec<usize> = case[k].as_array().cloned().unwrap_or_default().iter().map(|x| x.as_u64().unwrap_or(8) as usize).collect();
+                [a.first().copied().unwrap_or(8), a.get(1).copied().unwrap_or(8), a.get(2).copied().unwrap_or(8)]
+            };
+            println!("program:\n{}\nself-consistent layouts: {}", case["program"].as_str().unwrap_or(""), case["self_consistent_layouts"]);
+            judge_two_labels(&w("lda_widths"), &w("ldb_widths"), case["tail"].as_bool().unwrap_or(false), l);
+            return;
+        }
         let Some(prog) = prog_from_json(&case["prog"]) else {
             eprintln!("replay file lacks the structured program");
             return;
